@@ -41,7 +41,7 @@ PROPS = {
                      "checkers": {"REQ": "check_c12"}, "shard": 50}],
         "quick_scale": 1, "thorough_scale": 12, "search_factor": 6,
         "ties": ["Crypto/McHash.v: hand model of num-bigint 0.4.6 from_signed_bytes_be / to_str_radix(16) and of "
-                 "passage-adapters/src/authentication/mod.rs minecraft_hash, tied by the hash binary (families H, D)"],
+                 "passage-adapters/src/authentication/mod.rs minecraft_hash, tied by the hash binary (families H, D)", "mojang binary (REQ): the serverId the real MojangAdapter puts into its hasJoined request vs the Spec-level hash of the CONFIGURED server id, shared secret and key (ids with surrounding whitespace, NUL, mixed case included)"],
         "allowed_axioms": [],
         "rule": "hash binary: H = real minecraft_hash on fixed vectors, seeded (id, secret, key) triples and triples found by "
                 "counter search per digest class (top bit, 00, 00 0x, nibble 0, ff, ff fx, 80, 7f, negative with low byte 00); "
@@ -84,7 +84,7 @@ PROPS = {
         "harness": [{"bin": "limiter"}],
         "shard": 14,                       # 213 cases -> 16 coqc processes
         "quick_scale": 1, "thorough_scale": 12, "search_factor": 6,
-        "ties": ["harness limiter binary: RateLimiter<u64> under a paused tokio clock vs Limiter.enqueue (decisions, tracked keys after every attempt, per-key solo runs)"],
+        "ties": ["harness limiter binary: RateLimiter<u64> under a paused tokio clock vs Limiter.enqueue (decisions, tracked keys after every attempt, per-key solo runs)", "every history is also replayed with each rejected attempt repeated at the same instant: the other decisions must not change (observable side of C13_reject_free)"],
         "allowed_axioms": ["ClassicalDedekindReals.sig_not_dec", "ClassicalDedekindReals.sig_forall_dec",
                            "FunctionalExtensionality.functional_extensionality_dep", "Classical_Prop.classic"],
         "rule": "limiter binary: seeded histories over 1-6 keys, limits {1,2,3,60}, durations {1 ms,1 s,1.5 s,10 s}, gaps {0,1 ns,d-1,d,d+1,2d-1,2d,2d+1,4d,random}, "
@@ -184,13 +184,13 @@ PROPS = {
         "ignore_families": ["C10P"],
         "shard": 10,
         "quick_scale": 1, "thorough_scale": 8, "search_factor": 4,
-        "ties": ["stream binary: the real CipherStream<_, cfb8::Encryptor<Aes128>, cfb8::Decryptor<Aes128>> polled by hand over a scripted inner transport vs Crypto/CipherStream.v; ciphertext recomputed with the Gallina AES-128 (FIPS-197 / SP 800-38A vectors as Examples)"],
+        "ties": ["stream binary: the real CipherStream<_, cfb8::Encryptor<Aes128>, cfb8::Decryptor<Aes128>> polled by hand over a scripted inner transport vs Crypto/CipherStream.v; ciphertext recomputed with the Gallina AES-128 (FIPS-197 / SP 800-38A vectors as Examples)", "conn binary (BASE, C01, C10): real Connection::listen; the harness client decrypts everything after its Encryption Response with an independent CFB8, so the place of the switch is observed (check_c05c: Conn/Switch.v monitor on the observation)"],
         "allowed_axioms": [],
         "rule": "stream binary: WR = write schedules over {Pending, Ready 1, Ready k, Ready all, Err}* with write_all-like retries and buffer changes after Pending, payloads 0-300 bytes; SW = plaintext writes, set_encryption, more writes; RD = read chunkings {1,2,15,16,17,33,64, empty, Pending, Err} into a partly filled ReadBuf; non-trivial = distinct case with encryption on and at least one Pending or partial accept (WR/SW) or two data chunks (RD)",
         "trusted_base": COMMON_TB + ["Spec/Aes.v (FIPS-197 AES-128) and Spec/Cfb8Spec.v (SP 800-38A CFB-8), hand-written specifications",
                                      "hand model of crypto/stream.rs in Crypto/CipherStream.v (tied by the stream correspondence)",
                                      "aes/cfb8 crates = the Gallina AES/CFB8 (tied by every encrypted case)"],
-        "assumptions": ["the connection-level switch (Login Success is the first encrypted packet) is covered by the conn cases, whose post-switch frames are decrypted by an independent cfb8 implementation in the harness"],
+        "assumptions": ["none beyond the trusted base"],
     },
     "C10": {
         "props_file": "Props/C10.v",
@@ -247,7 +247,7 @@ PROPS = {
         "shard": 40,
         "quick_scale": 1, "thorough_scale": 8, "search_factor": 4,
         "ties": ["conn binary: real Connection::listen on a scripted transport/client/adapters in a paused runtime vs Conn.Sem1.run1 (sends, calls, outcome, virtual ms)",
-                 "Gen/PacketsGen.v descriptors decode the client's frames and encode the model's packets"],
+                 "Gen/PacketsGen.v descriptors decode the client's frames and encode the model's packets", "the gap monitor of C07_whole_gap (no event later than P after the last Keep Alive until selection has answered) is evaluated on the implementation's own timed observation"],
         "allowed_axioms": [],
         "rule": "conn binary family C07: per-adapter latencies from 1 ms to 5 keep-alive periods x echo policy {prompt, delayed up to just under a period, never, wrong id, duplicate, stop after n} x Client Information arrival {immediate, after 1/2/3 periods} x slow authentication (missed-tick realignment), under virtual time with exact millisecond comparison; non-trivial = distinct case in which at least one Keep Alive was sent",
         "trusted_base": COMMON_TB + ["Conn/Prog.v: hand transcription of Connection::listen into the program datatype (tied by the conn correspondence: every case compares the model's sends, adapter calls, outcome and virtual times with the real Connection::listen)",
@@ -316,7 +316,7 @@ PROPS = {
                  "Gen/PacketsGen.v descriptors decode the client's frames and encode the model's packets"],
         "family_types": {"SEGP": {"case_type": "seg_pair", "imports": ["Lib.Bytes", "Conn.Types", "Run.CaseConn"], "checkers": {"SEGP": "check_seg_pair"}}},
         "allowed_axioms": [],
-        "rule": 'conn binary family SEG: each scenario run whole and again with every client frame cut (one byte at a time, after the length prefix, before the last byte, at seeded offsets, 3 cuts) with 3 ms gaps and, in a third of the cases, a transport that accepts 1 or 7 bytes per write; the pair is compared on packets sent, services consulted and outcome (SEGP); family CAN: logins in which a keep-alive tick or the completion of a raced adapter call is placed inside the length prefix / the body of a client frame, or the stream ends inside a frame (9 variants, seeded offsets); every run is compared with the byte-level model M2 exactly and M2 with M1 applied to the byte-level reader; non-trivial = distinct segmented case',
+        "rule": 'conn binary family SEG: each scenario run whole and again with every client frame cut (one byte at a time, after the length prefix, before the last byte, at seeded offsets, 3 cuts) with 3 ms gaps and, in a third of the cases, a transport that accepts 1 or 7 bytes per write; the pair is compared on packets sent, services consulted and outcome (SEGP); family CAN: logins in which a keep-alive tick or the completion of a raced adapter call is placed inside the length prefix / the body of a client frame, or the stream ends inside a frame (9 variants, seeded offsets); every run is compared with the byte-level model M2 exactly and M2 with M1 applied to the byte-level reader; non-trivial = distinct segmented case; family WCAN: the transport accepts 3 bytes of the Keep Alive written at the first tick and refuses the rest for 2 ms while the raced adapter call completes 1 ms after the tick (class K3, repaired in 8ccd88e), with controls; monitor: every frame the client received is a complete canonical packet of its phase',
         "trusted_base": COMMON_TB + ["Conn/Prog.v: hand transcription of Connection::listen into the program datatype (tied by the conn correspondence: every case compares the model's sends, adapter calls, outcome and virtual times with the real Connection::listen)",
                                      "Conn/Sem1.v: frame-level semantics incl. a hand model of tokio 1.49 Interval (MissedTickBehavior::Skip), validated by every timed conn case",
                                      "RSA PKCS#1 v1.5, serde_json, uuid generation, SystemTime: oracles recorded per case / universally quantified in the theorems",
